@@ -201,3 +201,153 @@ def rule_component_extraction(ctx):
     if r.require_anchor(fcc, "breadth-first search collecting a component"):
         both = {callee_decl(callee_of(s)).rsplit("::", 1)[-1] for s in fcc.calls() if callee_matches(callee_of(s), r"AAFramework::iter_attacks_(from|to)$")}
         r.check(both == {"iter_attacks_from", "iter_attacks_to"}, fcc.id + "|undirected", "directions=%s" % sorted(both), "the search follows attacks in both directions", "the component search follows attacks in one direction only: weakly connected arguments are split", fcc.loc())
+
+
+# ------------------------------------------------------------------------------------------
+# grounded propagation: counters count stored attacks with the multiplicity the propagation uses
+
+_SHRINKING = r"alloc::vec::Vec::(dedup|dedup_by|dedup_by_key|retain|retain_mut|truncate|drain|pop|remove|swap_remove|clear)$"
+
+
+def _unfiltered_source(prog, body, op, want, depth=0):
+    """does the iterator / collection operand enumerate exactly the elements of an unfiltered `want`
+    (regex on the callee) call?  returns (True, site) / (False, reason)"""
+    from .. import tags
+
+    if depth > 6:
+        return False, "depth"
+    os_ = origins(body, op, transparent=tags.ELEMENT_PRESERVING + ("core::iter::traits::iterator::Iterator::enumerate",))
+    if not os_:
+        return False, "no origin"
+    res = None
+    for o in os_:
+        if o.kind == "call" and callee_matches(o.data, want):
+            res = o.site
+            continue
+        if o.kind == "call" and callee_decl(o.data) == "core::iter::traits::iterator::Iterator::map":
+            ok, why = _unfiltered_source(prog, body, o.site.node["args"][0], want, depth + 1)
+            if not ok:
+                return False, why
+            res = why
+            continue
+        if o.kind == "call" and callee_decl(o.data) in ("alloc::vec::Vec::new", "alloc::vec::Vec::with_capacity"):
+            return False, "a vector filled by hand"
+        if o.kind == "call":
+            return False, "through " + callee_decl(o.data)
+        return False, o.kind
+    # a collected vector must not be shrunk afterwards
+    p = op_place(op)
+    return True, res
+
+
+def _vec_shrunk(body, op):
+    for o in origins(body, op, transparent=("core::ops::deref::Deref::deref",)):
+        if o.kind == "call" and o.site is not None:
+            for s in body.mut_call_defs.get(o.site.node["dst"]["l"], []):
+                if callee_matches(callee_of(s), _SHRINKING):
+                    return callee_decl(callee_of(s))
+    return None
+
+
+def rule_attack_multiplicity(ctx):
+    prog = ctx.prog
+    r = ctx.rule(
+        "attack-multiplicity",
+        "the grounded propagation initialises each argument's attacker counter with the number of *stored* attacks on it (an unfiltered "
+        "`iter_attacks_to(arg)` counted) and decrements it once per element of an unfiltered `iter_attacks_from(defeated)`: both sides see a "
+        "repeated attack declaration with the same multiplicity, so repeating a declaration cannot change the grounded extension",
+    )
+    fns = []
+    for b in prog.lib_bodies():
+        if b.kind == "closure" or not b.path.startswith("utils::"):
+            continue
+        bodies = prog.with_closures(b)
+        has_to = any(callee_matches(callee_of(s), r"AAFramework::iter_attacks_to$") for x in bodies for s in x.calls())
+        has_from = any(callee_matches(callee_of(s), r"AAFramework::iter_attacks_from$") for x in bodies for s in x.calls())
+        if has_to and has_from:
+            fns.append(b)
+    if not r.require_anchor(fns, "a function in utils:: that iterates both iter_attacks_to and iter_attacks_from (the grounded propagation)"):
+        return
+    n_init = n_dec = 0
+    for fn in fns:
+        bodies = prog.with_closures(fn)
+        # counter vectors: Vec<usize> locals of fn captured by reference into closures, or used directly
+        for b in bodies:
+            for s in b.sites():
+                n = s.node
+                if s.si is None or n["k"] != "assign":
+                    continue
+                rv = n["rv"]
+                # decrement: x = Sub(x, 1) stored (directly or through the checked-arithmetic tuple)
+                if rv["k"] == "binop" and rv["op"] in ("Sub", "SubWithOverflow", "SubUnchecked"):
+                    k = op_const(rv["ops"][1])
+                    if k is None or k.get("int") != 1:
+                        continue
+                    src = op_place(rv["ops"][0])
+                    if src is None or "*" not in [str(e) for e in src["p"]][:1] and not src["p"]:
+                        # a plain local counter (e.g. loop index arithmetic) - not an indexed element
+                        continue
+                    n_dec += 1
+                    anchor = "%s|decrement#%d" % (b.id, n_dec)
+                    ok, why = _decrement_iteration(prog, b, s)
+                    r.check(ok, anchor, "decrement-iteration", "the decrement runs once per element of an unfiltered iter_attacks_from(..)", "the counter is decremented %s: a repeated attack is no longer counted on this side as it is on the other" % why, s.loc())
+        # initialisation: Iterator::count / Vec::len whose value is stored into an indexed element
+        for b in bodies:
+            for s in b.sites():
+                n = s.node
+                if s.si is None or n["k"] != "assign" or not n["dst"]["p"] or str(n["dst"]["p"][0]) != "*":
+                    continue
+                if b.local_ty(n["dst"]["l"]).replace("&mut ", "").strip() != "usize":
+                    continue
+                if n["rv"]["k"] != "use" or op_place(n["rv"]["ops"][0]) is None:
+                    continue
+                # what is stored
+                srcs = origins(b, n["rv"]["ops"][0], transparent=())
+                if not srcs or any(o.kind in ("binop", "const") for o in srcs):
+                    continue
+                n_init += 1
+                anchor = "%s|init#%d" % (b.id, n_init)
+                bad = None
+                for o in srcs:
+                    if o.kind == "call" and callee_decl(o.data) == "core::iter::traits::iterator::Iterator::count":
+                        ok, why = _unfiltered_source(prog, b, o.site.node["args"][0], r"AAFramework::iter_attacks_to$")
+                        if not ok:
+                            bad = "a count of a filtered / other iteration (%s)" % why
+                    elif o.kind == "call" and callee_decl(o.data) in ("alloc::vec::Vec::len",):
+                        ok, why = _unfiltered_source(prog, b, o.site.node["args"][0], r"AAFramework::iter_attacks_to$")
+                        sh = _vec_shrunk(b, o.site.node["args"][0])
+                        if not ok:
+                            bad = "the length of something else than the collected iter_attacks_to (%s)" % why
+                        elif sh:
+                            bad = "the length of a vector shrunk by %s" % sh
+                    else:
+                        bad = "not a count of iter_attacks_to (%s)" % o.kind
+                r.check(bad is None, anchor, "counter-init", "the counter starts as the number of stored attacks (unfiltered iter_attacks_to counted)", "the counter starts as %s while the propagation decrements once per stored attack" % bad, s.loc())
+    r.floor(n_init, 1, "counter initialisations")
+    r.floor(n_dec, 1, "counter decrements")
+
+
+def _decrement_iteration(prog, b, site):
+    """the decrement site lies in a closure handed to for_each over an unfiltered iter_attacks_from,
+    or inside a loop driven by Iterator::next of one"""
+    if b.kind == "closure" and b.parent:
+        par = prog.by_target[b.target].get(b.parent["direct"])
+        if par is not None:
+            for ps in par.calls():
+                pc = callee_of(ps)
+                if pc and b.path in (pc.get("fn_args") or []):
+                    if callee_decl(pc) != "core::iter::traits::iterator::Iterator::for_each":
+                        return False, "inside a closure handed to %s" % callee_decl(pc)
+                    ok, why = _unfiltered_source(prog, par, ps.node["args"][0], r"AAFramework::iter_attacks_from$")
+                    return (True, "") if ok else (False, "per element of a filtered / other iteration (%s)" % why)
+    # loop form
+    for header, blocks in b.loops():
+        if site.bb in blocks:
+            for bb in blocks:
+                for s in b.calls():
+                    if s.bb == bb and callee_decl(callee_of(s)) == "core::iter::traits::iterator::Iterator::next":
+                        ok, why = _unfiltered_source(prog, b, s.node["args"][0], r"AAFramework::iter_attacks_from$")
+                        if ok:
+                            return True, ""
+            return False, "in a loop that is not driven by an unfiltered iter_attacks_from"
+    return False, "outside any iteration over iter_attacks_from"
